@@ -470,57 +470,29 @@ func ruleNoIntegerProduct(w *World, r *Report, pfx string) {
 		}
 		r.Check(bad == "", rule, "no integer product of progress quantities in "+fnShort(fn), orStr(pos, w.pos(fn.Pos())), "products are formed in floating point", bad)
 	}
-	// negativity guard before int64 -> uint
+	// negativity guard before int64 -> uint: on every path, a conversion of a signed parameter to an
+	// unsigned type is preceded by the atom p >= 0
 	if fn := w.Func("internal.PercentageRound"); fn != nil {
 		bad := ""
-		for _, b := range fn.Blocks {
-			for _, in := range b.Instrs {
-				cv, ok := in.(*ssa.Convert)
+		nConv := 0
+		w.enumPaths(fn, pathOpts{}, func(p *Path) {
+			for _, ev := range p.Events {
+				cv, ok := ev.In.(*ssa.Convert)
 				if !ok || !isUnsigned(cv) {
 					continue
 				}
-				p, ok := cv.X.(*ssa.Parameter)
-				if !ok || isUnsigned(p) {
+				prm, ok := cv.X.(*ssa.Parameter)
+				if !ok || isUnsigned(prm) {
 					continue
 				}
-				// dominated by the false edge of p < 0
-				guarded := false
-				for _, x := range fn.Blocks {
-					ifi, ok := x.Instrs[len(x.Instrs)-1].(*ssa.If)
-					if !ok {
-						continue
-					}
-					if negGuards(ifi.Cond, p) && x.Succs[1].Dominates(b) {
-						guarded = true
-					}
-				}
-				if !guarded {
-					bad = "a possibly negative " + p.Name() + " is converted to uint without a dominating negativity guard (a negative value becomes a huge positive one)"
+				nConv++
+				if !p.hasCmp(ev.Idx, token.GEQ, func(v Val) bool { return v.V == ssa.Value(prm) }, isConstInt(0)) {
+					bad = "a possibly negative " + prm.Name() + " is converted to uint on a path without the atom " + prm.Name() + " >= 0 (a negative value becomes a huge positive one)"
 				}
 			}
-		}
-		r.Check(bad == "", rule+"g", "negativity guard in "+fnShort(fn), w.pos(fn.Pos()), "int64->uint conversions guarded", bad)
+		})
+		r.Check(bad == "" && nConv >= 2, rule+"g", "negativity guard in "+fnShort(fn), w.pos(fn.Pos()), "int64->uint conversions guarded on every path", orStr(bad, "conversions of total/current not found"))
 	}
-}
-
-// negGuards: cond is (possibly a disjunction containing) p < 0.
-func negGuards(cond ssa.Value, p ssa.Value) bool {
-	switch x := cond.(type) {
-	case *ssa.BinOp:
-		if x.Op == token.LSS && x.X == p {
-			if k, ok := constInt(x.Y); ok && k == 0 {
-				return true
-			}
-		}
-	case *ssa.Phi:
-		// a || b lowered to a phi: the false edge of the final If implies every disjunct false
-		for _, e := range x.Edges {
-			if negGuards(e, p) {
-				return true
-			}
-		}
-	}
-	return false
 }
 
 // ruleMonotone (E6b): internal.Percentage is non-decreasing in current by monotone composition.
